@@ -9,7 +9,13 @@
 //!                                         document: leptos_meta components + the real
 //!                                         ServerMetaContextOutput::inject_meta_context over a shell
 //!        (4 k s)                          k-th `view!` template with the dynamic string s in its slot(s)
+//!        (5 mode view schedule)           the same view streamed: mode 0 to_html_stream_in_order,
+//!                                         1 to_html_stream_out_of_order; schedule: k >= 0 completes
+//!                                         future k, -1 polls the stream once; then the stream is
+//!                                         polled to its end (lowest pending future completed
+//!                                         whenever it is pending); output: all chunks concatenated
 //! view : (0 bytes) String child | (1 cp) char child | (3 n) i64 child | (4) unit
+//!        (5 k view)  Suspend::new(async { future k; view })
 //!        (2 tag attrs children)  tag: index into TAGS
 //! attr : (0 name value) | (1 name bool) | (2 class) | (3 class-name bool) | (4 style) | (5 prop value)
 //!        (6 value) typed `id`
@@ -76,8 +82,30 @@ macro_rules! container {
     }};
 }
 
+thread_local! {
+    static GATES: std::cell::RefCell<Vec<crate::c12::Gate>> = const { std::cell::RefCell::new(Vec::new()) };
+}
+fn gate(k: usize) -> crate::c12::Gate {
+    GATES.with(|g| {
+        let mut g = g.borrow_mut();
+        while g.len() <= k {
+            g.push(crate::c12::Gate::default());
+        }
+        g[k].clone()
+    })
+}
+
 pub fn view(v: &Sexp) -> AnyView {
     match v.at(0).num() {
+        5 => {
+            let g = gate(v.at(1).num() as usize);
+            let inner = v.at(2).clone();
+            tachys::reactive_graph::Suspend::new(async move {
+                crate::c12::GateFuture(g).await;
+                view(&inner)
+            })
+            .into_any()
+        }
         0 => text(v.at(1)).into_any(),
         1 => char::from_u32(v.at(1).num() as u32)
             .expect("scalar value")
@@ -122,7 +150,9 @@ fn static_view(k: i64) -> String {
         8 => view! { <div><p>"</p><img src=x onerror=alert(1)>"</p><span title="\"><script>alert(1)</script>">"</span><script>alert(2)</script>"</span></div> }.to_html(),
         9 => view! { <section><div class="a\" onclick=\"alert(1)" data-x="&quot;&amp;">"&lt;b&gt;&amp;amp;<b>x</b>"</div><textarea>"</textarea><img src=x>"</textarea></section> }.to_html(),
         10 => view! { <div><span>"<!--"</span><span>"--><script>alert(1)</script>"</span><input value="'\"><svg onload=alert(1)>"/></div> }.to_html(),
-        _ => view! { <ul><li><a href="javascript:alert('x')\"<>">"<a href=x>"</a></li><li id="</li></ul><p>">"</li></ul>"</li></ul> }.to_html(),
+        11 => view! { <ul><li><a href="javascript:alert('x')\"<>">"<a href=x>"</a></li><li id="</li></ul><p>">"</li></ul>"</li></ul> }.to_html(),
+        // the scope class of `view! { class = ..., }`: on every element, inert or not
+        _ => view! { class = "g\" onclick=\"alert(1)", <div><p>"static child"</p><span class="own">"x"</span>{1}</div> }.to_html(),
     }
 }
 
@@ -150,7 +180,12 @@ fn template_view(k: i64, s: String) -> String {
         9 => view! { <div class:active=true class=s></div> }.to_html(),
         10 => view! { <my-element data-payload=s>"slot"</my-element> }.to_html(),
         11 => view! { <title>{s}</title> }.to_html(),
-        _ => view! { <p>{move || s.clone()}</p> }.to_html(),
+        12 => view! { <p>{move || s.clone()}</p> }.to_html(),
+        _ => {
+            // scope class given by an expression; the nested elements take the macro's inert path
+            let cls: &'static str = Box::leak(s.into_boxed_str());
+            view! { class = cls, <div><p>"static child"</p><span class="own">"x"</span>{1}</div> }.to_html()
+        }
     }
 }
 
@@ -204,6 +239,73 @@ fn document(c: &Sexp) -> String {
     })
 }
 
+fn streamed(c: &Sexp) -> String {
+    use crate::c12::{noop_waker, reset_executor, run_until_idle};
+    use futures::Stream;
+    use std::task::{Context, Poll};
+    reset_executor();
+    GATES.with(|g| g.borrow_mut().clear());
+    let owner = Owner::new();
+    let out = owner.with(|| {
+        let v = view(c.at(2));
+        let mut stream: std::pin::Pin<Box<dyn Stream<Item = String>>> = if c.at(1).num() == 0 {
+            Box::pin(v.to_html_stream_in_order())
+        } else {
+            Box::pin(v.to_html_stream_out_of_order())
+        };
+        let waker = noop_waker();
+        let mut cx = Context::from_waker(&waker);
+        let mut out = String::new();
+        let mut ended = false;
+        let mut poll = |out: &mut String, ended: &mut bool| -> bool {
+            if *ended {
+                return false;
+            }
+            run_until_idle();
+            match stream.as_mut().poll_next(&mut cx) {
+                Poll::Ready(Some(chunk)) => {
+                    out.push_str(&chunk);
+                    false
+                }
+                Poll::Ready(None) => {
+                    *ended = true;
+                    false
+                }
+                Poll::Pending => true,
+            }
+        };
+        for step in c.at(3).list() {
+            let k = step.num();
+            if k < 0 {
+                poll(&mut out, &mut ended);
+            } else {
+                gate(k as usize).complete(String::new());
+                run_until_idle();
+            }
+        }
+        let mut guard = 0;
+        while !ended {
+            guard += 1;
+            if guard > 10_000 {
+                panic!("stream did not end");
+            }
+            if poll(&mut out, &mut ended) {
+                let n = GATES.with(|g| g.borrow().len());
+                match (0..n).find(|k| !gate(*k).is_done()) {
+                    Some(k) => {
+                        gate(k).complete(String::new());
+                        run_until_idle();
+                    }
+                    None => panic!("stream pending although every future completed"),
+                }
+            }
+        }
+        out
+    });
+    reset_executor();
+    out
+}
+
 pub fn run(c: &Sexp) -> Sexp {
     crate::c12::ensure_executor();
     let out = match c.at(0).num() {
@@ -211,6 +313,7 @@ pub fn run(c: &Sexp) -> Sexp {
         2 => static_view(c.at(1).num()),
         3 => document(c),
         4 => template_view(c.at(1).num(), text(c.at(2))),
+        5 => streamed(c),
         _ => String::new(),
     };
     Sexp::from_str(&out)
